@@ -34,6 +34,7 @@ type dlg struct {
 	wrap     bool // device echoes with wrap bytes
 	maxChunk int
 	env      int
+	long     bool // the device's answers are longer than the (lowered) prompt search depth
 }
 
 func (d dlg) name() string {
@@ -50,7 +51,11 @@ func (d dlg) name() string {
 		}
 		s = append(s, x)
 	}
-	return fmt.Sprintf("dlg/events=%s/early=%d/complete=%v/wrap=%v/chunk=%d/env=%d", strings.Join(s, ","), d.early, d.complete, d.wrap, d.maxChunk, d.env)
+	n := fmt.Sprintf("dlg/events=%s/early=%d/complete=%v/wrap=%v/chunk=%d/env=%d", strings.Join(s, ","), d.early, d.complete, d.wrap, d.maxChunk, d.env)
+	if d.long {
+		n += "/long"
+	}
+	return n
 }
 
 const prompt = "router#"
@@ -87,21 +92,26 @@ func dlgScenario(s dlg) sched.Scenario {
 					}
 					var out string
 					next := fmt.Sprintf("m%d", i+1)
+					if s.long {
+						for k := 0; k < 8; k++ {
+							out += fmt.Sprintf("listing %d row %02d\n", i, k)
+						}
+					}
 					switch {
 					case i == s.early:
 						// the device ends the dialogue early: the completion pattern is the last thing it prints
-						out = fmt.Sprintf("result of step %d  \nrouter(done)#", i)
+						out += fmt.Sprintf("result of step %d  \nrouter(done)#", i)
 						next = fmt.Sprintf("m%d", n)
 					case i == n-1 && s.events[i].resp:
-						out = fmt.Sprintf("result of step %d  \nfinal\nQ%d> ", i, i)
+						out += fmt.Sprintf("result of step %d  \nfinal\nQ%d> ", i, i)
 						next = fmt.Sprintf("m%d", n)
 					case i == n-1:
-						out = fmt.Sprintf("result of step %d  \nfinal\n%s", i, prompt)
+						out += fmt.Sprintf("result of step %d  \nfinal\n%s", i, prompt)
 						next = fmt.Sprintf("m%d", n)
 					case s.events[i].resp:
-						out = fmt.Sprintf("text of step %d\nQ%d> ", i, i)
+						out += fmt.Sprintf("text of step %d\nQ%d> ", i, i)
 					default:
-						out = fmt.Sprintf("text of step %d\n%s", i, prompt)
+						out += fmt.Sprintf("text of step %d\n%s", i, prompt)
 					}
 					return dev.Reply{Raw: &out, Next: next}
 				}
@@ -118,7 +128,11 @@ func dlgScenario(s dlg) sched.Scenario {
 			var err, setupErr error
 			w0, sent0 := 0, 0
 			e.Go("client", func() {
-				g, nerr := generic.NewDriver("dev", cm.BaseOpts(tr, rd, 300*cm.Ms, 0)...)
+				gopts := cm.BaseOpts(tr, rd, 300*cm.Ms, 0)
+				if s.long {
+					gopts = append(gopts, options.WithPromptSearchDepth(48)) // > longest line + prompt, < one answer
+				}
+				g, nerr := generic.NewDriver("dev", gopts...)
 				if nerr != nil {
 					setupErr = nerr
 					return
@@ -447,7 +461,10 @@ func scenarios(tier string) []sched.Scenario {
 						if tier != "thorough" && len(l) == 3 && mc == 3 {
 							continue
 						}
-						out = append(out, dlgScenario(dlg{l, early, complete, wrap, mc, env}))
+						out = append(out, dlgScenario(dlg{l, early, complete, wrap, mc, env, false}))
+						if len(l) <= 2 && !wrap {
+							out = append(out, dlgScenario(dlg{l, early, complete, wrap, mc, env, true}))
+						}
 					}
 				}
 			}
